@@ -1131,6 +1131,13 @@ impl ProtocolState {
     }
 
     fn is_connect_in_queue(&self) -> bool {
+        // a connect that is only partially encoded has not been sent either
+        if let Some(id) = self.current_operation {
+            if self.is_connect_packet(id) {
+                return true;
+            }
+        }
+
         self.high_priority_operation_queue.iter().any(|id| self.is_connect_packet(*id))
     }
 
